@@ -151,6 +151,41 @@ Fixpoint pass2 (ds : list docarg) (m : mode2) (b : list (N * value)) : list (N *
       end
   end.
 
+(* ---- which default forms are EVALUATED (round 3) ----
+   Pass 2 evaluates the default form of an &optional / &rest / &key parameter only when no argument was bound to
+   the parameter ("if !bound(name) { ss.Let(name, ss.Eval(ad.Default)) }"), the form of an &aux parameter always.
+   A parameter without a default form (Default nil) has nothing to evaluate.  The result lists the parameters
+   whose form is evaluated, in the order of evaluation; the scope is threaded exactly as in pass2. *)
+Definition eval_if_unbound (b : list (N * value)) (x : N) (d : option Z) : list N :=
+  match d, lookup b x with Some _, None => [x] | _, _ => [] end.
+Fixpoint pass2_evals (ds : list docarg) (m : mode2) (b : list (N * value)) : list N :=
+  match ds with
+  | [] => []
+  | ad :: ds' =>
+      match m with
+      | M2Req => pass2_evals ds' (match d_name ad with POptional => M2Opt | PRest => M2Rest | PKey => M2Key | PAux => M2Aux | _ => M2Req end) b
+      | M2Opt => match d_name ad with
+                 | PRest => pass2_evals ds' M2Rest b | PKey => pass2_evals ds' M2Key b | PAux => pass2_evals ds' M2Aux b | PAllow => pass2_evals ds' M2Opt b
+                 | PVar x => eval_if_unbound b x (d_def ad) ++ pass2_evals ds' M2Opt (default_if_unbound b x (d_def ad))
+                 | POptional => pass2_evals ds' M2Opt b
+                 end
+      | M2Rest => match d_name ad with
+                  | PKey => pass2_evals ds' M2Key b | PAux => pass2_evals ds' M2Aux b | PAllow => pass2_evals ds' M2Rest b
+                  | PVar x => eval_if_unbound b x (d_def ad) ++ pass2_evals ds' M2Rest (default_if_unbound b x (d_def ad))
+                  | _ => pass2_evals ds' M2Rest b
+                  end
+      | M2Key => match d_name ad with
+                 | PAux => pass2_evals ds' M2Aux b
+                 | PVar x => eval_if_unbound b x (d_def ad) ++ pass2_evals ds' M2Key (default_if_unbound b x (d_def ad))
+                 | _ => pass2_evals ds' M2Key b
+                 end
+      | M2Aux => match d_name ad with
+                 | PVar x => (match d_def ad with Some _ => [x] | None => [] end) ++ pass2_evals ds' M2Aux (bind b x (def_val (d_def ad)))
+                 | _ => pass2_evals ds' M2Aux b
+                 end
+      end
+  end.
+
 Definition params (ds : list docarg) : list N :=
   flat_map (fun d => match d_name d with PVar x => [x] | _ => [] end) ds.
 
@@ -176,5 +211,23 @@ Definition bind_M (ds : list docarg) (args : list arg) : outcome :=
                    | _, _ => p_b st end in
           let b := pass2 ds M2Req b in
           OBound (map (fun x => (x, match lookup b x with Some v => v | None => VUnbound end)) (params ds))
+      end
+  end.
+
+(* the default forms Lambda.Call evaluates, in order; none when the call is rejected (every rejection of the binder
+   happens before pass 2) *)
+Definition evals_M (ds : list docarg) (args : list arg) : list N :=
+  let st := pass1 (key_params ds) (has_allow ds) ds MReq {| p_args := args; p_b := []; p_rest := []; p_restsym := None; p_err := None |} in
+  match p_err st with
+  | Some _ => []
+  | None =>
+      match p_args st with
+      | _ :: _ => []
+      | [] =>
+          if (length args <? req_count ds)%nat then [] else
+          let b := match p_rest st, p_restsym st with
+                   | _ :: _, Some r => bind (p_b st) r (VList (p_rest st))
+                   | _, _ => p_b st end in
+          pass2_evals ds M2Req b
       end
   end.
